@@ -481,16 +481,8 @@ class Tensor:
         return F.slice(self, key)
     
     def __iter__(self):
-        self._current_idx = 0
-        return self
-    
-    def __next__(self) -> 'Tensor':
-        if self._current_idx >= len(self):
-            raise StopIteration
-        else:
-            val = self[self._current_idx]
-            self._current_idx += 1
-            return val
+        # every iteration gets its own cursor (nested / simultaneous loops over one tensor)
+        return (self[idx] for idx in range(len(self)))
     
     def __len__(self) -> int:
         return len(self.data)
